@@ -516,6 +516,11 @@ func (c *cenv) binary(x *CBinary) (cval, error) {
 		if a.sort == "Int" || b.sort == "Int" {
 			return cval{fmt.Sprintf("(%s %s %s)", x.Op, a.s, b.s), "Bool", nil}, nil
 		}
+		if a.sort == "Str" && b.sort == "Str" && e.strTheory {
+			// lexical (byte-wise) order of strings
+			f := map[string]string{"<": "(str.< %s %s)", "<=": "(str.<= %s %s)", ">": "(str.< %[2]s %[1]s)", ">=": "(str.<= %[2]s %[1]s)"}[x.Op]
+			return cval{fmt.Sprintf(f, a.s, b.s), "Bool", nil}, nil
+		}
 		if a.sort != "ISort" || b.sort != "ISort" {
 			return cval{}, fmt.Errorf("ordering of %s and %s in %s", a.sort, b.sort, x)
 		}
@@ -929,8 +934,8 @@ func (c *cenv) call(x *CCall) (cval, error) {
 		return cval{e.hnameIn(arr, c.st), "Int", nil}, nil
 	case "callresult":
 		// callresult("key", k): result of the k-th call of the callee (meaningful where ncalls(key) >= k)
-		if len(x.Args) != 2 {
-			return cval{}, fmt.Errorf("callresult(\"key\", k)")
+		if len(x.Args) != 2 && len(x.Args) != 3 {
+			return cval{}, fmt.Errorf("callresult(\"key\", k [, component])")
 		}
 		lit, ok1 := x.Args[0].(*CLit)
 		ord, ok2 := x.Args[1].(*CLit)
@@ -938,6 +943,28 @@ func (c *cenv) call(x *CCall) (cval, error) {
 			return cval{}, fmt.Errorf("callresult: (string literal, ordinal)")
 		}
 		k := lit.Val + "#" + ord.Val
+		if len(x.Args) == 3 {
+			// a component of a tuple result
+			cl, ok := x.Args[2].(*CLit)
+			if !ok || cl.Kind != "int" {
+				return cval{}, fmt.Errorf("callresult: the component must be a literal")
+			}
+			k += "." + cl.Val
+			if v, ok := e.callResults[k]; ok {
+				return v, nil
+			}
+			if t, ok := e.callResultTypes[lit.Val]; ok {
+				if tt, isTuple := t.(*types.Tuple); isTuple {
+					ci, _ := strconv.Atoi(cl.Val)
+					if ci < tt.Len() {
+						n := "cr_" + sname(k)
+						e.declValue(n, tt.At(ci).Type())
+						return cval{n, e.sortOf(tt.At(ci).Type()), tt.At(ci).Type()}, nil
+					}
+				}
+			}
+			return cval{}, fmt.Errorf("callresult(%q, %s, %s): no such call result", lit.Val, ord.Val, cl.Val)
+		}
 		if v, ok := e.callResults[k]; ok {
 			return v, nil
 		}
